@@ -24,15 +24,15 @@ import (
 )
 
 type step struct {
-	Op   string `json:"op"` // advance | head-same | reorg-previous | reorg-current | fail-next-fetch | restart | stale-event
-	Arg  uint64 `json:"arg,omitempty"`
+	Op  string `json:"op"` // advance | head-same | reorg-previous | reorg-current | fail-next-fetch | restart | stale-event
+	Arg uint64 `json:"arg,omitempty"`
 }
 
 type hist struct {
-	SPE        uint64  `json:"slots_per_epoch"`
-	Start      uint64  `json:"start_slot"`
-	PropDelay  bool    `json:"proposal_delay"`
-	Steps      []step  `json:"steps"`
+	SPE       uint64 `json:"slots_per_epoch"`
+	Start     uint64 `json:"start_slot"`
+	PropDelay bool   `json:"proposal_delay"`
+	Steps     []step `json:"steps"`
 }
 
 // script of the node's duties, regenerated per epoch on reorgs
@@ -181,7 +181,9 @@ func runHistory(c *harness.Ctx, id string, r *rand.Rand) {
 	}
 	// the job table against the model
 	checkJobs := func(stage string, atRestart bool) {
-		ok := env.Eventually(func() bool { return len(jobProblems(env, sc, spe, okFetch, okPFetch, opts.MaxProposalDelay, atRestart)) == 0 })
+		ok := env.Eventually(func() bool {
+			return len(jobProblems(env, sc, spe, okFetch, okPFetch, opts.MaxProposalDelay, atRestart)) == 0
+		})
 		if !ok {
 			for _, p := range jobProblems(env, sc, spe, okFetch, okPFetch, opts.MaxProposalDelay, atRestart) {
 				fail(p[0]+":"+stage, p[1])
@@ -486,14 +488,14 @@ func run(c *harness.Ctx) {
 
 func main() {
 	harness.Main(&harness.Spec{
-		Property: "C03",
-		Level:    "exploration",
-		Rule:     "controller histories in virtual time: start anywhere in an epoch (slots per epoch 4 or 8, proposal delay 0 or 2 s), then 6-15 steps of {advance 1..n slots running every due job and the epoch ticker, head event with unchanged roots, head event with changed previous / current dependent root (the scripted node's duties for the affected epochs change), duty fetch failure, restart of the controller at the current slot, stale head event}; duty scripts contain several validators per slot and decoy duties outside the requested epoch. After every step the captured job table and the recorded Attest/Propose invocations are compared with refduty. Plus 40 conversion-law checks on each of 400 random chain parameter sets. distinct = (slots per epoch, delay, set of step kinds, start offset); non-trivial = >=3 step kinds",
-		Batches:  func(string) int { return 2 },
-		Parallel: 2,
-		Run:      run,
-		MinDistinct: 30,
+		Property:     "C03",
+		Level:        "exploration",
+		Rule:         "controller histories in virtual time: start anywhere in an epoch (slots per epoch 4 or 8, proposal delay 0 or 2 s), then 6-15 steps of {advance 1..n slots running every due job and the epoch ticker, head event with unchanged roots, head event with changed previous / current dependent root (the scripted node's duties for the affected epochs change), duty fetch failure, restart of the controller at the current slot, stale head event}; duty scripts contain several validators per slot and decoy duties outside the requested epoch. After every step the captured job table and the recorded Attest/Propose invocations are compared with refduty. Plus 40 conversion-law checks on each of 400 random chain parameter sets. distinct = (slots per epoch, delay, set of step kinds, start offset); non-trivial = >=3 step kinds",
+		Batches:      func(string) int { return 2 },
+		Parallel:     2,
+		Run:          run,
+		MinDistinct:  30,
 		ChildTimeout: func(string) time.Duration { return 40 * time.Minute },
-		Assumptions: []string{"a duty in the clock's own slot may or may not have a job except at (re)start, where it must not", "reorgs are generated for epochs >= 2 and for events of the clock's slot only (others are delivered and must be harmless)", "job-missing verdicts are only drawn after the mismatch persisted for 8 s (normal settling: milliseconds)", "sync-committee scheduling is judged under C15"},
+		Assumptions:  []string{"a duty in the clock's own slot may or may not have a job except at (re)start, where it must not", "reorgs are generated for epochs >= 2 and for events of the clock's slot only (others are delivered and must be harmless)", "job-missing verdicts are only drawn after the mismatch persisted for 8 s (normal settling: milliseconds)", "sync-committee scheduling is judged under C15"},
 	})
 }
